@@ -132,7 +132,12 @@ def coq_eval_many(files: list[tuple[str, str]], timeout: int = 900) -> list[tupl
     """Compile several generated files in parallel (xargs -P style)."""
     from concurrent.futures import ThreadPoolExecutor
     with ThreadPoolExecutor(max_workers=NPROC) as ex:
-        return list(ex.map(lambda nv: coq_eval(nv[0], nv[1], timeout), files))
+        res = list(ex.map(lambda nv: coq_eval(nv[0], nv[1], timeout), files))
+    # a shard killed by the time limit under load is retried once, alone, with a longer limit
+    for k, (okc, o) in enumerate(res):
+        if not okc and not o.strip():
+            res[k] = coq_eval(files[k][0], files[k][1], timeout * 2)
+    return res
 
 
 def parse_nat_list(out: str, marker: str) -> list[int] | None:
